@@ -526,6 +526,7 @@ def build_corpus(tier, only=None):
     scs += monitor_scenarios(tier)
     scs += suspender_scenarios(tier)
     scs += random_bundle_programs(tier)
+    scs += random_programs(tier)
     scs += defer_pair_scenarios(tier)
     scs += double_suspension_scenarios(tier)
     scs += two_call_scenarios(tier)
@@ -782,6 +783,96 @@ def random_bundle_programs(tier, seed=0):
         npts = len(msgs) * 2
         for p in sorted(rng.sample(range(npts), 3 if tier == "quick" else 8)):
             out.append(with_inject(base, [{"at": p, "kind": "pause"}], ["resume"] * 3, f"pause@{p}|resume"))
+    return out
+
+
+def random_programs(tier, seed=0):
+    """seeded random plan programs over the whole vocabulary RE.tla models (runs under one or two keys, bundles, checkpoints,
+    non-resumable and non-rewindable sections, stage/unstage, set/trigger + wait, configure, monitor/unmonitor, the plan's own
+    pauses, sleep, optional finalize clean-up): each is executed uninterrupted and with a pause / a suspension at sampled
+    scheduling points; every execution is conformance-checked against RE.tla and judged by the monitors"""
+    rng = random.Random(7000 + seed)
+    out = []
+    nprog = 20 if tier == "quick" else 120
+    for n in range(nprog):
+        msgs = []
+        staged = rng.random() < 0.4
+        if staged:
+            msgs.append(M("stage", "det"))
+        key = rng.choice(["", "", "k1"])
+        msgs += [M("open_run", run=key)]
+        monitored = rng.random() < 0.3
+        if monitored:
+            msgs.append(M("monitor", "mon1", run=key))
+        if rng.random() < 0.85:
+            msgs.append(M("checkpoint"))
+        devs = {"primary": rng.choice([["det"], ["det", "motor"]]), "baseline": rng.choice([["det2"], ["det2", "pdet"]])}
+        second_open = False
+        nores = False
+        for _ in range(rng.randint(4, 9)):
+            r = rng.random()
+            if r < 0.32:
+                sname = rng.choice(["primary", "primary", "baseline"])
+                msgs.append(M("create", run=key, a=sname))
+                for d in devs[sname]:
+                    msgs.append(M("read", d, run=key))
+                msgs.append(M("save", run=key) if rng.random() < 0.85 else M("drop", run=key))
+            elif r < 0.47:
+                msgs.append(M("checkpoint"))
+                nores = False
+            elif r < 0.55:
+                msgs.append(M("null"))
+            elif r < 0.61:
+                # (a checkpoint first: readings taken before the move must not be re-taken after it -- the plan is replay-safe)
+                msgs += [M("checkpoint"), M("set", "motor", a="g1", value=rng.randint(1, 3)), M("wait", a="g1")]
+                nores = False
+            elif r < 0.66:
+                msgs += [M("trigger", "det", a="g2"), M("wait", a="g2")]
+            elif r < 0.72:
+                msgs.append(M("configure", rng.choice(["det", "det2"]), run=key))
+            elif r < 0.77 and not nores:
+                msgs.append(M("clear_checkpoint"))
+                nores = True
+            elif r < 0.82:
+                msgs += [M("rewindable", a="F"), M("null"), M("rewindable", a="T")]
+            elif r < 0.86:
+                msgs.append(M("pause", a=rng.choice(["T", "T", "F"])))
+            elif r < 0.90:
+                msgs += [M("stage", "det2"), M("null"), M("unstage", "det2")]
+            elif r < 0.93:
+                msgs.append(M("sleep"))
+            elif r < 0.96 and monitored:
+                msgs.append(M("unmonitor", "mon1", run=key))
+                monitored = False
+            elif not second_open and key != "k2":
+                msgs += [M("open_run", run="k2"), M("create", run="k2", a="primary"), M("read", "det2", run="k2"), M("save", run="k2"),
+                         M("close_run", run="k2")]
+                second_open = True
+        body_end = len(msgs)
+        closes = rng.random() < 0.8
+        cleanup = []
+        if monitored and rng.random() < 0.6:
+            cleanup.append(M("unmonitor", "mon1", run=key))
+        if closes:
+            cleanup.append(M("close_run", run=key))
+        if staged:
+            cleanup.append(M("unstage", "det"))
+        prog = {"msgs": msgs + cleanup}
+        if cleanup and rng.random() < 0.5:
+            prog.update({"kind": "finalize", "try": [2 if staged else 1, body_end], "cleanup": [body_end + 1, body_end + len(cleanup)]})
+        name = f"rp{n}"
+        PROGRAMS[name] = prog
+        base = base_scenario(name)
+        b = run_one(base)
+        if b["error"]:
+            raise RuntimeError(f"random program {name} failed in the harness: {b['error']}")
+        out.append(base)
+        npts = b["points"]
+        k = 4 if tier == "quick" else 10
+        for p in sorted(rng.sample(range(npts + 1), min(k, npts + 1))):
+            out.append(with_inject(base, [{"at": p, "kind": "pause"}], ["resume"] * 4, f"pause@{p}|resume"))
+            out.append(with_inject(base, [{"at": p, "kind": "suspend", "arg": "f1"}, {"at": p + 2, "kind": "release", "arg": "f1"},
+                                          {"at": "blocked", "kind": "release", "arg": "f1"}], ["resume"] * 4, f"suspend@{p}|resume"))
     return out
 
 
